@@ -46,6 +46,8 @@ def run(ctx):
     ctx.report.rules[-1].id = "R01.4(R07.4)"
     from .. import wrappers
     wrappers.digest_wrapper(ctx, rep, roles, "C01", "R01.5")
+    # a reordered / stale delta must not be admitted over a hole (seed R3-C01-1)
+    c14.r14_5(ctx, rep, adm, P="C01", rule="R01.6")
 
 
 def r01_1(ctx, rep, roles, snd):
